@@ -403,6 +403,36 @@ def auto_discharge(P, s):
                         e = idx[2][0][1]
                         if e[0] == 'bin' and e[1] == 'Sub' and e[3] == ('int', 1, 'usize') and e[2][0] == 'call' and e[2][1].endswith('::len'):
                             return 'DC-THEN', '[..len-1] inside bool::then on !is_empty of the same vector'
+    # `x.len().checked_sub(k).map(|n| .. x[..n] ..)`: the closure's parameter is len − k of the very vector it slices
+    if s['kind'] == 'index' and f.kind == 'Closure' and f.parent in P.fns:
+        par = P.fns[f.parent]
+        for c in par.calls(lambda r: r['path'] and re.search(r'Option::<T>::(map|and_then)$', r['path'])):
+            args = [par.expr_of_operand(a) for a in c['term']['args']]
+            if len(args) == 2 and args[1][0] == 'closure' and args[1][1] == f.id:
+                caps = args[1][2]
+                recv = strip(expand(par, args[0]))
+
+                def res2(e):
+                    e = strip(e)
+                    if e[0] == 'upvar' and e[1] < len(caps):
+                        return strip(caps[e[1]])
+                    if e[0] == 'field':
+                        return ('field', res2(e[1]), e[2])
+                    return e
+                idx = s['ops'][1] if len(s['ops']) > 1 else None
+                if recv[0] == 'call' and re.search(r'::checked_sub$', recv[1]) and len(recv[2]) == 2 and is_len_of(recv[2][0]) is not None and \
+                        idx and idx[0] == 'agg' and 'RangeTo' in idx[1] and strip(idx[2][0][1])[:2] == ('arg', 2) and \
+                        res2(s['ops'][0]) == strip(is_len_of(recv[2][0])):
+                    return 'DC-CHECKED-SUB', '[..n] with n = len.checked_sub(k) of the same vector (n ≤ len)'
+    return None
+
+
+def is_len_of(e):
+    e = strip(e)
+    if e[0] == 'call' and e[1].endswith('::len') and e[2]:
+        return strip(e[2][0])
+    if e[0] == 'un' and e[1] == 'PtrMetadata':
+        return strip(e[2])
     return None
 
 
